@@ -231,6 +231,9 @@ def run_c04(pid):
                                   "bpscode": "hdr" if bps in (8, 16, 24) else "si",
                                   "frames": [{"bs": 16, "chassign": assign, "subs": [raw, plain] if side_first else [plain, raw]}],
                                   "pcm": [[edge[i % 2] for i in range(16)], [edge[(i + 1) % 2] for i in range(16)]]})
+    dm = P.directed_malformed(pid_n)
+    plan_list += dm
+    pid_n += len(dm)
     gen = generate(wd, plan_list, "mal")
     by_plan = {p["id"]: p for p in plan_list}
     items = []
@@ -339,6 +342,7 @@ def run_c17(pid):
                     mplans.append({"id": k, "channels": 1, "bps": 16, "rate": 44100, "selfcheck": False, "class": "tiny-block-po",
                                    "frames": [{"bs": bs, "subs": [{"type": "fixed", "order": order, "method": 0, "po": 0, "params": [["rice", 2]], "ov": {"po": po}}]}],
                                    "pcm": [[(i * 7) % 11 - 5 for i in range(bs)]]})
+    mplans += P.directed_malformed(k)
     byp = {p["id"]: p for p in vplans + mplans}
     for g in generate(wd, vplans + mplans, "c17"):
         p = byp[g["id"]]
